@@ -302,9 +302,52 @@ pub fn compute_event(m: &Model, it: &mut Interner, same_as_last: bool) -> Value 
         && m.windows.iter().all(|w| w.geometry.width > 0.0 && w.geometry.height > 0.0)
         && ind.area_ref > 0.0
         && ind.vol_env_net > 0.0;
+    // metamorphic variants of the same model: every collection reversed and every name changed; all lengths doubled
+    let head = |i: &EnergyIndicators| -> Value {
+        let mut b2: Vec<String> = vec![];
+        json!({"K": qv(i.K_data.K, 1e4, "K", &mut b2), "n50": qv(i.n50_data.n50, 1e4, "n50", &mut b2), "aref": qv(i.area_ref, 1e2, "aref", &mut b2),
+            "vgross": qv(i.vol_env_gross, 1e2, "vg", &mut b2), "vnet": qv(i.vol_env_net, 1e2, "vn", &mut b2), "compact": qv(i.compactness, 1e4, "c", &mut b2),
+            "q": qv(i.q_soljul_data.q_soljul, 1e4, "q", &mut b2), "ok": b2.is_empty()})
+    };
+    let mut mr = m.clone();
+    mr.spaces.reverse();
+    mr.walls.reverse();
+    mr.windows.reverse();
+    mr.thermal_bridges.reverse();
+    mr.shades.reverse();
+    mr.cons.wallcons.reverse();
+    mr.cons.wincons.reverse();
+    mr.cons.materials.reverse();
+    mr.cons.glasses.reverse();
+    mr.cons.frames.reverse();
+    for (k, x) in mr.spaces.iter_mut().enumerate() { x.name = format!("renamed space {}", k); }
+    for (k, x) in mr.walls.iter_mut().enumerate() { x.name = format!("renamed wall {}", k); }
+    for (k, x) in mr.windows.iter_mut().enumerate() { x.name = format!("renamed window {}", k); }
+    for (k, x) in mr.cons.wallcons.iter_mut().enumerate() { x.name = format!("renamed construction {}", k); }
+    let reordered = catch(std::panic::AssertUnwindSafe(|| mr.energy_indicators())).ok().map(|i| head(&i)).unwrap_or(json!({"ok": false}));
+    let mut ms = m.clone();
+    let s2 = 2.0f32;
+    for x in ms.spaces.iter_mut() { x.height *= s2; x.z *= s2; }
+    for x in ms.walls.iter_mut() {
+        for p in x.geometry.polygon.iter_mut() { p.x *= s2; p.y *= s2; }
+        if let Some(pos) = x.geometry.position.as_mut() { pos.x *= s2; pos.y *= s2; pos.z *= s2; }
+    }
+    for x in ms.windows.iter_mut() {
+        x.geometry.width *= s2; x.geometry.height *= s2; x.geometry.setback *= s2;
+        if let Some(pos) = x.geometry.position.as_mut() { pos.x *= s2; pos.y *= s2; }
+    }
+    for x in ms.thermal_bridges.iter_mut() { x.l *= s2; }
+    for c in ms.cons.wallcons.iter_mut() {
+        for l in c.layers.iter_mut() { l.e *= s2; }
+    }
+    for x in ms.shades.iter_mut() {
+        for p in x.geometry.polygon.iter_mut() { p.x *= s2; p.y *= s2; }
+        if let Some(pos) = x.geometry.position.as_mut() { pos.x *= s2; pos.y *= s2; pos.z *= s2; }
+    }
+    let scaled = catch(std::panic::AssertUnwindSafe(|| ms.energy_indicators())).ok().map(|i| head(&i)).unwrap_or(json!({"ok": false}));
     json!({"ev": "Compute", "outcome": "ok", "model": absm, "numeric": bad.is_empty(), "bad": bad,
         "props": {"spaces": spaces, "walls": walls, "wins": wins, "wincons": wincons},
-        "glob": glob, "k": kj, "n50": nj, "q": qj, "warn": warn,
+        "glob": glob, "k": kj, "n50": nj, "q": qj, "warn": warn, "head": head(&ind), "reordered": reordered, "scaled": scaled,
         "nonfinite": nonfinite, "roundtrips": roundtrips, "sane": sane, "same_as_last": same_as_last})
 }
 
@@ -629,4 +672,35 @@ pub fn main_session(args: &Args) {
     drive(reqs, timeout, &mut out, &mut stats);
     write_lines(&out_path, &out);
     println!("{}", json!({"models": stats.models, "events": stats.events, "hangs": stats.hangs, "loaderrs": stats.loaderrs, "out": out_path}));
+}
+
+/// diagnostic: which reordering / renaming changes K for an abstract model taken from a replay file
+pub fn main_probe(args: &Args) {
+    install_panic_hook();
+    let text = std::fs::read_to_string(args.get("--replay").unwrap_or_default()).unwrap_or_default();
+    let v: Value = serde_json::from_str(&text).unwrap_or(Value::Null);
+    let m = concretize(&v["event"]["model"]);
+    let k = |m: &Model| catch(std::panic::AssertUnwindSafe(|| m.energy_indicators().K_data.K)).unwrap_or(f32::NAN);
+    println!("original K = {}", k(&m));
+    let mut a = m.clone(); a.walls.reverse(); println!("walls reversed   {}", k(&a));
+    let mut a = m.clone(); a.spaces.reverse(); println!("spaces reversed  {}", k(&a));
+    let mut a = m.clone(); a.windows.reverse(); println!("windows reversed {}", k(&a));
+    let mut a = m.clone(); a.thermal_bridges.reverse(); println!("tbs reversed     {}", k(&a));
+    let mut a = m.clone(); a.cons.wallcons.reverse(); a.cons.wincons.reverse(); a.cons.materials.reverse(); a.cons.glasses.reverse(); a.cons.frames.reverse(); println!("cons reversed    {}", k(&a));
+    let mut a = m.clone(); for (i, x) in a.walls.iter_mut().enumerate() { x.name = format!("r{}", i); } println!("walls renamed    {}", k(&a));
+    let mut a = m.clone(); for (i, x) in a.spaces.iter_mut().enumerate() { x.name = format!("r{}", i); } println!("spaces renamed   {}", k(&a));
+    let k0 = k(&m);
+    for i in 0..m.walls.len().saturating_sub(1) {
+        let mut a = m.clone();
+        a.walls.swap(i, i + 1);
+        let k1 = k(&a);
+        if k1 != k0 {
+            let d = |w: &bemodel::Wall| format!("{} {:?} tilt {} az {} space {} next {:?} cons {}", w.name, w.bounds, w.geometry.tilt, w.geometry.azimuth, w.space, w.next_to, w.cons);
+            println!("swap {} <-> {}: K {} -> {}\n   {}\n   {}", i, i + 1, k0, k1, d(&m.walls[i]), d(&m.walls[i + 1]));
+            let u = |m: &Model| m.energy_indicators().props.walls.iter().map(|(id, p)| (id.to_string()[30..].to_string(), p.u_value)).collect::<Vec<_>>();
+            let (u0, u1) = (u(&m), u(&a));
+            for (x, y) in u0.iter().zip(u1.iter()) { if x != y { println!("   U differs: {:?} -> {:?}", x, y); } }
+        }
+    }
+    if args.flag("--dump") { println!("{}", m.as_json().unwrap_or_default()); }
 }
